@@ -102,7 +102,9 @@ def is_deliberate_rejection(exc: BaseException) -> bool:
     tb = traceback.extract_tb(exc.__traceback__)
     if not tb:
         return True
-    return "/toqito/" in tb[-1].filename.replace("\\", "/")
+    last = tb[-1]
+    # raised by a `raise` statement in toqito's own code (an error surfacing from numpy's C code also ends in a toqito frame)
+    return "/toqito/" in last.filename.replace("\\", "/") and (last.line or "").lstrip().startswith("raise")
 
 
 def exc_text(exc: BaseException) -> str:
